@@ -92,10 +92,10 @@ def check(ctx):
         st = after
         a = n.ast
         if n.kind == 'stmt' and isinstance(a, ast.AugAssign) and is_self_attr(a.target, '_value'):
-            good = isinstance(a.op, ast.Add) and ast.unparse(a.value) == vp
+            good = isinstance(a.op, ast.Add) and ctext(a.value, FrameEnv(n.frame)) == vp        # (through a helper's parameter)
             st = st.with_flag(('changed2' if 'changed' in st.flags else 'changed') if good else 'changed-wrong')
         elif n.kind == 'stmt' and isinstance(a, ast.Assign) and any(is_self_attr(t, '_value') for t in a.targets):
-            good = N.norm(a.value).is_({'self._value': 1, vp: 1})
+            good = N.norm(a.value, FrameEnv(n.frame)).is_({'self._value': 1, vp: 1})
             st = st.with_flag(('changed2' if 'changed' in st.flags else 'changed') if good else 'changed-wrong')
         for cl in calls_at(an.g, n):
             if call_attr(cl) in ('append', 'insert') and is_self_attr(cl.func.value, '_value_history'):
@@ -103,7 +103,8 @@ def check(ctx):
                 env_ = FrameEnv(n.frame)
                 if isinstance(t, ast.Name):
                     r_ = env_.resolve(t.id)
-                    t = r_[0] if r_ else t
+                    if r_:
+                        t, env_ = r_[0], (r_[1] if len(r_) > 1 and r_[1] is not None else env_)
                 good = isinstance(t, ast.Tuple) and len(t.elts) == 4 and ctext(t.elts[0], env_) == lp and N.norm(t.elts[1], env_).is_({'NOW': 1}) \
                     and ctext(t.elts[2], env_) == vp and ctext(t.elts[3], env_) in ('self._value', 'self.value') and 'changed' in st.flags
                 st = st.with_flag(('logged2' if 'logged' in st.flags else 'logged') if good else 'logged-wrong')
